@@ -55,7 +55,7 @@ CHECKS.update({
     "C08": _sem("Histories of engine.ground/engine.query calls on one shared target formula and one prepared ClauseDB "
                 "(all orders of queries and evidence up to a cap, with interleaved throw-away queries), and fresh "
                 "single-query groundings, judged by Semantics.tla and compared with the default pipeline.",
-                "DESIGN.md §4 C08", technique="API-call histories replayed on the real engine + TLA+ Semantics oracle (TLC)"),
+                "DESIGN.md §4 C08", technique="API-call histories replayed on the real engine + TLA+ Semantics oracle (TLC); TLC refinement model of the goal table (DefineCache.tla) replayed on the real class"),
 })
 
 CHECKS["C34"] = dict(
